@@ -522,8 +522,17 @@ class FnView:
             ks = self.tu.kids(c)
             fld = (c.get('anyInit') or {}).get('name')
             if fld is None:
-                fld = '<base>'
+                fld = '<delegate>' if c.get('delegatingInit') is not None else '<base>'
+                bt = (c.get('baseInit') or {}).get('qualType')
+                if fld == '<base>' and bt and self.f.get('rec') and tparse(bt)[0].split('::')[-1] == self.f['rec'].split('::')[-1]:
+                    fld = '<delegate>'     # template pattern: a "base" initialiser naming the class itself delegates
+                if fld == '<delegate>':
+                    self.delegate_node = ks[0] if ks else None
             if ks and ks[0].get('kind') == 'CXXDefaultInitExpr':
+                out.append((fld, ('?', 'default member initialiser')))
+                continue
+            if fld == '<delegate>' and ks and ks[0].get('kind') == 'ParenListExpr':
+                out.append((fld, ('ctor', None, tuple(self.term(a) for a in self.tu.kids(ks[0])))))
                 continue
             out.append((fld, self.term(ks[0]) if ks else ('ctor', None, ())))
         return out
@@ -974,6 +983,10 @@ def unroll(stmts, limit=64):
     out = []
     for st in stmts:
         if st[0] == 'if':
+            if st[1][0] == 'lit':
+                c = st[1][1]
+                out.extend(unroll(list(st[2] if (c if isinstance(c, bool) else c != 0) else st[3]), limit))
+                continue
             out.append(('if', st[1], tuple(unroll(list(st[2]), limit)), tuple(unroll(list(st[3]), limit))))
             continue
         if st[0] != 'for':
@@ -1077,6 +1090,31 @@ class Inliner:
                         self.v.callees.extend(hv.callees)
                         out.extend(self.stmts([subst_params(x, st[1][3], this=('this',)) for x in hb], depth + 1))
                         continue
+            if st[0] in ('ret', 'expr') and st[1] is not None and st[1][0] == 'call' and isinstance(st[1][1], str) and depth < 3:
+                g = self.lookup(st[1][1], len(st[1][2]), False)
+                if g is not None:
+                    hv = FnView(self.tu, g)
+                    hb = list(hv.body())
+                    single = bool_of_stmts(hb)
+
+                    def early(xs, top=True):
+                        for i, x in enumerate(xs):
+                            if x[0] == 'ret' and not (top and i == len(xs) - 1):
+                                return True
+                            if x[0] == 'if' and (early(x[2], False) or early(x[3], False)):
+                                return True
+                            if x[0] == 'for' and early(x[4], False):
+                                return True
+                        return False
+                    if single is None and hb and hb[-1][0] == 'ret' and not early(hb) and not unknowns(hb):
+                        self.used.add(g['id'])
+                        self.used_names.add(st[1][1])
+                        self.v.callees.extend(hv.callees)
+                        body = [subst_params(x, st[1][2]) for x in hb]
+                        if st[0] == 'expr':
+                            body = body[:-1]
+                        out.extend(self.stmts(body, depth + 1))
+                        continue
             if st[0] == 'if':
                 out.append(('if', self.expr(st[1]), tuple(self.stmts(list(st[2]), depth)), tuple(self.stmts(list(st[3]), depth))))
             elif st[0] in ('ret', 'expr') and st[1] is not None:
@@ -1084,3 +1122,36 @@ class Inliner:
             else:
                 out.append(st)
         return out
+
+
+def ctor_fields(tu, f, v, pick_target, depth=0):
+    """({field: term over f's parameters}, problem) of the member initialisers of constructor f, following a delegating
+    initialiser into the target constructor (pick_target(f, v, args) -> function entry | None) with the arguments bound"""
+    ini = v.inits()
+    if ini is None:
+        return None, 'constructor declaration not found'
+    got = {}
+    for fld, t in ini:
+        if fld == '<base>':
+            continue
+        if fld == '<delegate>':
+            if depth > 3 or t[0] != 'ctor':
+                return None, 'delegating initialiser not understood: %s' % show(t)
+            args = t[2]
+            g = pick_target(f, v, args)
+            if g is None:
+                return None, 'target of the delegating initialiser `%s` cannot be identified' % show(t)
+            gv = FnView(tu, g)
+            sub, why = ctor_fields(tu, g, gv, pick_target, depth + 1)
+            if sub is None:
+                return None, why
+            if [st for st in gv.body() if st[0] != 'ret']:
+                return None, 'the constructor delegated to has a body'
+            v.gtypes.update(gv.gtypes)
+            for k, x in sub.items():
+                got[k] = subst_params(x, args)
+            continue
+        if fld in got:
+            return None, 'field %s initialised twice' % fld
+        got[fld] = t
+    return got, None
